@@ -149,9 +149,35 @@ func (b *Batch) validate() error {
 				return fmt.Errorf("script %s: entry name %q refused", s.Name, f.Path)
 			}
 		}
+		roNames := map[string]int{}
+		written := map[string]bool{}
+		var note func(a *Action)
+		note = func(a *Action) {
+			switch a.Op {
+			case "Q":
+				roNames[a.Path]++
+			case "W", "X":
+				written[a.Path] = true
+			case "I":
+				if a.Sub != nil {
+					note(a.Sub)
+				}
+			}
+		}
 		for k := range s.Body {
 			if err := validateAction(&s.Body[k]); err != nil {
 				return fmt.Errorf("script %s: %v", s.Name, err)
+			}
+			note(&s.Body[k])
+		}
+		for p, n := range roNames {
+			if n > 1 || written[p] {
+				return fmt.Errorf("script %s: the read-only file %q is written more than once", s.Name, p)
+			}
+		}
+		for _, f := range s.Files {
+			if roNames[f.Path] > 0 {
+				return fmt.Errorf("script %s: the read-only file %q is also an archive entry", s.Name, f.Path)
 			}
 		}
 	}
@@ -576,7 +602,17 @@ func genAction(r *common.RNG, st *genState, allowEnd bool, depth int) Action {
 		case k == 25 || k == 26:
 			return Action{Op: "R", Path: common.Pick(r, rmPool)}
 		case k == 27:
-			return Action{Op: "Q", Path: common.Pick(r, []string{"ro0.txt", "d/ro1.txt", "ro0.txt"}), Data: common.Pick(r, []string{"", "ro\n"})}
+			// once per name: the file is read-only afterwards (an unprivileged user cannot write it again,
+			// and the model has no write bit for files)
+			p := common.Pick(r, []string{"ro0.txt", "d/ro1.txt", "ro0.txt"})
+			if st.roDone[p] {
+				continue
+			}
+			if st.roDone == nil {
+				st.roDone = map[string]bool{}
+			}
+			st.roDone[p] = true
+			return Action{Op: "Q", Path: p, Data: common.Pick(r, []string{"", "ro\n"})}
 		case k < 1:
 			// a foreground command by bare name: found on the script's PATH or not at all
 			return Action{Op: "H", Flag: r.Chance(1, 2), Key: common.Pick(r, []string{"hostcanary", "hostcanary", "nosuchprog-zz"})}
@@ -620,8 +656,13 @@ func genAction(r *common.RNG, st *genState, allowEnd bool, depth int) Action {
 			st.bgs = append(st.bgs, genBg{id: st.nBg, neg: neg})
 			return Action{Op: "G", ID: st.nBg, Flag: neg}
 		case k < 18:
+			// never under a guard: the generator has to know whether the signal was sent (a later bare
+			// wait on a command that nothing has signalled waits for ever)
+			if depth > 0 {
+				continue
+			}
 			// at most one kill per script: signalling a process that has been reaped is an error
-			if depth == 0 && len(st.bgs) > 0 && st.waitOutcome() != "stuck" && r.Chance(1, 2) {
+			if len(st.bgs) > 0 && st.waitOutcome() != "stuck" && r.Chance(1, 2) {
 				// a bare wait, only where it cannot block for ever
 				if st.waitOutcome() == "ok" {
 					st.bgs = nil
@@ -673,6 +714,7 @@ type genState struct {
 	killed  bool
 	bgs     []genBg  // the background commands the script has started and not yet waited for, in order
 	sibs    []string // the names of the other scripts of the batch
+	roDone  map[string]bool
 }
 
 // waitOutcome: what a status-checking wait over the list does: "ok" (all accepted: the list is
